@@ -408,7 +408,7 @@ func (r *ChunkReader) findRootNode() error {
 		r.err = err
 		return err
 	}
-	if _, err := io.ReadFull(r.readSeeker, r.currNode[:4]); err != nil {
+	if err := r.readFull(r.currNode[:4]); err != nil {
 		r.err = err
 		return err
 	}
@@ -429,7 +429,7 @@ func (r *ChunkReader) findRootNode() error {
 		r.err = err
 		return err
 	}
-	if _, err := io.ReadFull(r.readSeeker, r.currNode[:1]); err != nil {
+	if err := r.readFull(r.currNode[:1]); err != nil {
 		r.err = err
 		return err
 	}
@@ -471,6 +471,20 @@ func (r *ChunkReader) tryRootNode(arity uint8, fromEnd bool) (found bool, ioErr 
 	return true, nil
 }
 
+// readFull reads exactly len(p) bytes from r.readSeeker.
+//
+// Unlike io.ReadFull, it returns io.ErrUnexpectedEOF instead of io.EOF if
+// there were no bytes to read. The RAC file's size or index says that there
+// should be data there, and this type's callers interpret io.EOF as "there are
+// no more chunks", not as an error.
+func (r *ChunkReader) readFull(p []byte) error {
+	_, err := io.ReadFull(r.readSeeker, p)
+	if err == io.EOF {
+		err = io.ErrUnexpectedEOF
+	}
+	return err
+}
+
 // load loads a node from the RAC file into r.currNode. It does not check that
 // the result is valid, and the caller should do so if it doesn't already know
 // that it is valid.
@@ -484,7 +498,7 @@ func (r *ChunkReader) load(cOffset int64, arity uint8) error {
 		r.err = err
 		return err
 	}
-	if _, err := io.ReadFull(r.readSeeker, r.currNode[:size]); err != nil {
+	if err := r.readFull(r.currNode[:size]); err != nil {
 		r.err = err
 		return err
 	}
@@ -503,7 +517,7 @@ func (r *ChunkReader) loadAndValidate(cOffset int64,
 		r.err = err
 		return err
 	}
-	if _, err := io.ReadFull(r.readSeeker, r.currNode[:4]); err != nil {
+	if err := r.readFull(r.currNode[:4]); err != nil {
 		r.err = err
 		return err
 	}
